@@ -5,7 +5,9 @@ import (
 	"fmt"
 	"math/rand"
 	"sort"
+	"strings"
 	"sync"
+	"sync/atomic"
 	"time"
 
 	"github.com/tendermint/tendermint/p2p"
@@ -60,6 +62,8 @@ type sched struct {
 	chunkAw map[uint64]*ackWait
 	advAw   *ackWait
 	garb    int
+	async   int32            // push-async deliveries not yet acknowledged
+	rereq   map[string][]int // race-on-rerequest: peers asked so far for "h/f/i"
 }
 
 func newSched(w *world) *sched {
@@ -147,7 +151,7 @@ func (s *sched) deliverLocked(it *item) {
 		nonce := nonceBase + s.nonce
 		s.amu.Unlock()
 		l.smu.Lock()
-		s.w.log.add(Ev{K: "chunk-start", P: it.peer, C: -1, A: id, H: it.h, F: it.f, I: it.i, B: hexs(it.bytes), Miss: it.missing, Sol: it.sol})
+		s.w.log.add(Ev{K: "chunk-start", P: it.peer, C: -1, A: id, H: it.h, F: it.f, I: it.i, B: encB(it.bytes), Miss: it.missing, Sol: it.sol})
 		ok := false
 		if peer != nil {
 			msg := &ssproto.ChunkResponse{Height: it.h, Format: it.f, Index: it.i, Chunk: it.bytes, Missing: it.missing}
@@ -338,8 +342,154 @@ func (s *sched) reconnect(l *liar) bool {
 	return true
 }
 
+// forged returns a forged body for chunk i as peer p would send it: as long as the genuine
+// one, filled with a byte that is distinct per sender, unique per call.
+func (s *sched) forged(h uint64, f uint32, i uint32, p int) []byte {
+	g := s.garbage(h, f, i)
+	size := len(s.w.rightBytes(h, f, i))
+	if size <= len(g) {
+		return g
+	}
+	b := make([]byte, size)
+	copy(b, g)
+	for k := len(g); k < size; k++ {
+		b[k] = 0x30 + byte(p)
+	}
+	return b
+}
+
+// raceBatch delivers one chunk index from several peers at the same moment: one goroutine per
+// peer calls Reactor.ReceiveEnvelope with that peer as source (what each peer's receive routine
+// does), all released by one barrier.  wrong[k] says whether peers[k] sends forged bytes.
+func (s *sched) raceBatch(h uint64, f uint32, idx uint32, peers []int, wrong []bool, sol bool) {
+	s.dmu.Lock()
+	defer s.dmu.Unlock()
+	for t := 0; atomic.LoadInt32(&s.async) > 0 && t < 1500; t++ {
+		time.Sleep(2 * time.Millisecond)
+	}
+	if atomic.LoadInt32(&s.async) > 0 {
+		return
+	}
+	type part struct {
+		id   int
+		peer int
+		src  p2p.Peer
+		body []byte
+	}
+	var parts []part
+	for k, p := range peers {
+		l := s.w.liars[p]
+		l.mu.Lock()
+		st := l.stopped
+		l.mu.Unlock()
+		src := s.w.nodeSw.Peers().Get(l.id)
+		if st || src == nil {
+			continue
+		}
+		var body []byte
+		if !wrong[k] {
+			body = s.w.rightBytes(h, f, idx)
+		}
+		if body == nil {
+			body = s.forged(h, f, idx, p)
+		}
+		s.amu.Lock()
+		s.arrID++
+		id := s.arrID
+		s.amu.Unlock()
+		parts = append(parts, part{id, p, src, body})
+	}
+	if len(parts) < 2 {
+		return
+	}
+	var ids []string
+	for _, pt := range parts {
+		ids = append(ids, fmt.Sprint(pt.id))
+	}
+	s.w.log.add(Ev{K: "batch-start", P: -1, C: -1, H: h, F: f, I: idx, X: strings.Join(ids, ","), Sol: sol})
+	for _, pt := range parts {
+		s.w.log.add(Ev{K: "chunk-start", P: pt.peer, C: -1, A: pt.id, H: h, F: f, I: idx, B: encB(pt.body), Sol: sol, X: "concurrent"})
+	}
+	start := make(chan struct{})
+	var wg sync.WaitGroup
+	for _, pt := range parts {
+		pt := pt
+		wg.Add(1)
+		go func() {
+			defer wg.Done()
+			msg := &ssproto.ChunkResponse{Height: h, Format: f, Index: idx, Chunk: append([]byte{}, pt.body...)}
+			<-start
+			s.w.react.ReceiveEnvelope(p2p.Envelope{Src: pt.src, ChannelID: statesync.ChunkChannel, Message: msg})
+			s.w.log.add(Ev{K: "chunk-done", P: pt.peer, C: -1, A: pt.id, OK: true})
+			s.w.log.add(Ev{K: "chunk-ack", P: pt.peer, C: -1, A: pt.id})
+		}()
+	}
+	close(start)
+	wg.Wait()
+	s.w.log.add(Ev{K: "batch-end", P: -1, C: -1, H: h, F: f, I: idx})
+	s.qmu.Lock()
+	s.deliv++
+	s.qmu.Unlock()
+}
+
+// racePeers picks n connected peers (seeded order): peer 0 plays the honest one in every batch,
+// the others send forged bodies; prefer lists peers that should take part (the ones that were asked).
+func (s *sched) racePeers(n int, prefer ...int) ([]int, []bool) {
+	s.qmu.Lock()
+	order := s.rng.Perm(len(s.w.liars))
+	s.qmu.Unlock()
+	peers := []int{0}
+	add := func(p int) {
+		for _, q := range peers {
+			if q == p {
+				return
+			}
+		}
+		if len(peers) < n && p >= 0 && p < len(s.w.liars) {
+			peers = append(peers, p)
+		}
+	}
+	for _, p := range prefer {
+		add(p)
+	}
+	for _, p := range order {
+		add(p)
+	}
+	wrong := make([]bool, len(peers))
+	for k, p := range peers {
+		wrong[k] = p != 0
+	}
+	return peers, wrong
+}
+
 func (s *sched) exec(a Action, ctx holdCtx) {
 	switch a.Kind {
+	case "race":
+		h, f, n := ctx.h, ctx.f, ctx.n
+		if n == 0 {
+			return
+		}
+		cnt := a.Count
+		if cnt < 2 {
+			cnt = 2
+		}
+		var idxs []uint32
+		switch a.Rel {
+		case 99:
+			for i := uint32(0); i < n; i++ {
+				idxs = append(idxs, i)
+			}
+		case 98:
+			for i := uint32(1); i < n; i += 2 {
+				idxs = append(idxs, i)
+			}
+		default:
+			idxs = []uint32{uint32((int(ctx.cur) + a.Rel + 4*int(n)) % int(n))}
+		}
+		for _, idx := range idxs {
+			peers, wrong := s.racePeers(cnt)
+			s.raceBatch(h, f, idx, peers, wrong, false)
+		}
 	case "reconnect":
 		peer := s.resolvePeer(a.Peer, ctx)
 		if peer < 0 || peer >= len(s.w.liars) {
@@ -398,7 +548,11 @@ func (s *sched) exec(a Action, ctx holdCtx) {
 			if a.Kind == "push-async" {
 				// not serialised with the other deliveries and not awaited: the chunk is in flight
 				// while the app's response is handled
-				go s.deliverLocked(it)
+				atomic.AddInt32(&s.async, 1)
+				go func() {
+					s.deliverLocked(it)
+					atomic.AddInt32(&s.async, -1)
+				}()
 				d := a.DelayMs
 				if d <= 0 {
 					d = 4
